@@ -194,6 +194,8 @@ class WrapperGenerator:
                     return getattr(args[0], args[1])
                 if len(args) == 3:
                     return args[2]
+            if name == 'hasattr' and len(args) == 2 and isinstance(args[0], AObj) and isinstance(args[1], str):
+                return hasattr(args[0], args[1])
             if name == 'bool' and len(args) == 1 and isinstance(args[0], int):
                 return bool(args[0])
             return prev_builtin(name, args, kwargs) if prev_builtin else NotImplemented
